@@ -212,6 +212,7 @@ func (h *H) Start() {
 		// second controller - a controller is configured by what the builder held
 		// when Create() was called, not by what it holds later
 		b.Client(h.TwinSrv)
+		b.Filter(filter.All()) // (and with another filter: the second controller wants nothing at all)
 		t, err := b.Create()
 		if err != nil {
 			detsim.Fail("infra:builder", "second builder.Create: %v", err)
